@@ -167,9 +167,10 @@ def run(tier, seed):
     got_idx = {e["idx"] for e in exps if e["idx"] > 0}
     if len(got_idx) != npts:
         raise common.MachineryError("TLC handled %d of %d supplied points" % (len(got_idx), npts))
-    if tier == "quick":
-        enum = [e for e in exps if e["idx"] == 0]
-        exps = [e for e in exps if e["idx"] > 0] + rng.sample(enum, min(len(enum), 350))
+    # TLC checks the identities at EVERY enumerated point; a seeded sample of them is replayed into the code
+    enum = [e for e in exps if e["idx"] == 0]
+    chk.extra["enumerated_points_checked_by_tlc"] = len(enum)
+    exps = [e for e in exps if e["idx"] > 0] + rng.sample(enum, min(len(enum), 350 if tier == "quick" else 25000))
     for n, e in enumerate(exps):
         replay_point(chk, e, n)
         chk.nontriv((e["nv"], e["nh"], e["B"], str(e["am"]), str(e["ph"])))
